@@ -107,7 +107,7 @@ pub enum Flavor {
 
 fn tcfg(r: &mut Rng, flavor: Flavor) -> TcfgP {
     let mut t = TcfgP::default();
-    let tight = flavor == Flavor::Blocked || (flavor != Flavor::Real && r.chance(35));
+    let tight = flavor == Flavor::Blocked || r.chance(35);
     t.max_bidi = if tight { *r.pick(&[1, 1, 2, 3]) } else { *r.pick(&[2, 4, 16, 100]) };
     t.max_uni = if tight { *r.pick(&[1, 1, 2, 3]) } else { *r.pick(&[2, 4, 16, 100]) };
     t.stream_rwnd = if tight { *r.pick(&[64, 200, 500, 1000, 4000]) } else { *r.pick(&[1000, 16384, 65536, 1_250_000]) };
